@@ -201,4 +201,9 @@ def writeErrorShape : List Bytes := [b!"typeswitch err:=<*ast.TypeAssertExpr> {c
     remembered outside net/http's own per-authority connection pool); stream wire drives it -/
 def newRouterShape : List Bytes := [b!"transport:=&{Proxy:http.ProxyFromEnvironment,DialContext:&{Timeout:(15*time.Second),KeepAlive:(30*time.Second),DualStack:true,Resolver:&{PreferGo:true}}.DialContext,ForceAttemptHTTP2:true,MaxConnsPerHost:1000,MaxIdleConns:1000,IdleConnTimeout:(10*time.Second),TLSHandshakeTimeout:(10*time.Second),ExpectContinueTimeout:(1*time.Second),ResponseHeaderTimeout:(20*time.Second),MaxIdleConnsPerHost:1000}", b!"return &{rules:rules,logger:logger,config:conf,requestPerformer:&{roundTripper:transport}}"]
 
+/-- C05 C06 C13: the copy loop every writer stack runs (plain, encoding, caching): reader errors other than io.EOF end the
+    transfer AS ERRORS - the writer is closed and `errCleanup` (the deletion of the cache entry) runs; in particular a body
+    that breaks off is never taken for a complete one -/
+def writeBodyShape : List Bytes := [b!"buf:=make(<*ast.ArrayType>,(32*1024))", b!"step:=func{rn,rerr:=reader.Read(buf);if (rn>0) {_,werr:=w.Write(<*ast.SliceExpr>);if (werr!=nil) {logctx.WithField(\"error\",werr).Info(\"Writing of response caused error\");return false,werr}};if (rerr!=nil) {if (rerr!=io.EOF) {logctx.WithField(\"error\",rerr).Info(\"Reading response caused an error\");return false,rerr};return false,nil};return true,nil}", b!"for {keepOpen,err:=step(writer);<*ast.TypeAssertExpr>.Flush();if !keepOpen {unrecognised:*ast.DeclStmt;if closeWriter {if v,ok:=<*ast.TypeAssertExpr>; ok {closeErr=v.Close();if (closeErr!=nil) {logctx.WithField(\"closeError\",closeErr).Info(\"Closing writer caused an error\")}}};if (((err!=nil)||(closeErr!=nil))&&(errCleanup!=nil)) {errCleanup()};return err}}"]
+
 end Spec
